@@ -67,21 +67,81 @@ pub fn all_cases(ctx: &AllCtx) -> Vec<Case> {
 
 pub const SLOTS: u64 = 96;
 
+/// fewest slots a (case, shape) gets; slots beyond its enumerated mutations draw random mutations
+pub const MIN_SLOTS: u64 = 24;
+
+/// the enumerated part: for every (case, shape number) as many slots as that frame has enumerated mutations
+pub struct EnumTable {
+    /// (case index, shape number, first index, slots)
+    rows: Vec<(usize, u64, u64, u64)>,
+    total: u64,
+}
+
 pub struct C03 {
     pub ctx: AllCtx,
     cases: Vec<Case>,
+    table_quick: std::sync::OnceLock<EnumTable>,
+    table_thorough: std::sync::OnceLock<EnumTable>,
 }
 
 impl C03 {
     pub fn new() -> C03 {
         let ctx = AllCtx::new();
         let cases = all_cases(&ctx);
-        C03 { ctx, cases }
+        C03 { ctx, cases, table_quick: std::sync::OnceLock::new(), table_thorough: std::sync::OnceLock::new() }
     }
-    fn quick_cases(&self, seed_rot: u64) -> Vec<usize> {
-        // every message is enumerated in the quick tier as well (one shape; the thorough tier uses three)
-        let _ = seed_rot;
-        (0..self.cases.len()).collect()
+    /// the frame of a case depends only on (master seed, case, shape number). Shape 0 is the richest of 6 candidates
+    /// (most enumerated mutations: most fields, branches taken, arrays non-empty); further shapes are plain draws.
+    fn frame_for(&self, case: &Case, shape: u64, master: u64) -> Option<(Frame, Vec<Mutation>)> {
+        let world = case.login.is_none();
+        let knobs = Knobs { allow_nan: true, ..Knobs::default() };
+        let muts_of = |f: &Frame| {
+            let mut muts = compressed_mutations(f);
+            muts.extend(field_mutations(f));
+            muts.extend(truncations(f, world));
+            muts
+        };
+        if shape == 0 {
+            let mut best: Option<(Frame, Vec<Mutation>)> = None;
+            for k in 0..6u64 {
+                let mut wl = Rng::new(crate::rng::run_seed(master.wrapping_add(k << 32), &case.label(), 0xC03));
+                let kn = if k == 1 { Knobs { take_optional: Some(true), ..knobs.clone() } } else { knobs.clone() };
+                if let Some(f) = encode_case(&self.ctx, case, &mut wl, &kn) {
+                    if f.plain.len() > 6000 {
+                        continue;
+                    }
+                    let m = muts_of(&f);
+                    if best.as_ref().map(|b| m.len() > b.1.len()).unwrap_or(true) {
+                        best = Some((f, m));
+                    }
+                }
+            }
+            best
+        } else {
+            let mut wl = Rng::new(crate::rng::run_seed(master.wrapping_add(shape), &case.label(), 0xC03));
+            let f = encode_case(&self.ctx, case, &mut wl, &knobs)?;
+            let m = muts_of(&f);
+            Some((f, m))
+        }
+    }
+    fn table(&self, tier: Tier) -> &EnumTable {
+        let master = env_u64("VERIF_SEED", 1);
+        let (cell, shapes) = match tier {
+            Tier::Quick => (&self.table_quick, 1u64),
+            Tier::Thorough => (&self.table_thorough, 3u64),
+        };
+        cell.get_or_init(|| {
+            let mut rows = Vec::new();
+            let mut total = 0u64;
+            for shape in 0..shapes {
+                for (ci, c) in self.cases.iter().enumerate() {
+                    let n = self.frame_for(c, shape, master).map(|x| x.1.len() as u64).unwrap_or(0).clamp(if shape == 0 { MIN_SLOTS } else { 1 }, 600);
+                    rows.push((ci, shape, total, n));
+                    total += n;
+                }
+            }
+            EnumTable { rows, total }
+        })
     }
 }
 
@@ -181,7 +241,7 @@ impl Check for C03 {
         "fault_enumeration"
     }
     fn rule(&self) -> String {
-        format!("Fault enumeration through the model peer's field maps: for every message of every target (6 login protocol versions, 3 expansions, both directions; quick tier: one frame shape per message, thorough: three) a canonical frame is generated and every structured corruption is injected once ({} slots per message): truncation at each field boundary and inside a field (stream ends early / header announces less), every count/length/size/decompressed-size/mask-block-count field set to 0, 1, true+-1, 0x7F.., 0x80.., max, every enum field an undeclared value, Bool>=2, flags all-ones, DateTime out of range and at its field boundaries (hour 24, month 12, the day after the month's last with each of the 7 weekdays), a well-formed zlib stream that inflates to 1.25 GiB, strings without NUL / invalid UTF-8 / 300 bytes, packed-guid and built-in mask patterns announcing more than remains, sentinel-less achievement arrays; slots beyond the enumerated faults and the sampled part draw compressed-payload corruption, lying headers, bit flips, random bodies and combinations. The faulty frame is placed after 0-2 intact messages and before one more, and is read through the opcode-enum reader, the typed expect helper (and read_initial_message for login) by the blocking (whole buffer and chunked with EINTR), tokio and async-std readers under a scheduled delivery, and (world) once more through the decrypting readers with the headers encrypted under the session key, as an authenticated hostile peer would send them. Every read must return Ok or Err; panics are caught with location, process deaths attributed by the supervisor, allocation observed by a counting allocator (budget 1 GiB per scenario). Non-trivial: the fault actually reached a reader (a mutated byte or the cut was delivered); distinct = distinct event-log hashes.", SLOTS)
+        format!("Fault enumeration through the model peer's field maps: for every message of every target (6 login protocol versions, 3 expansions, both directions; quick tier: one frame shape per message, thorough: three) a canonical frame is generated and every structured corruption is injected once (as many slots per message as its richest frame out of 6 candidates has enumerated faults, at least {}; thorough: two more shapes): truncation at each field boundary and inside a field (stream ends early / header announces less), every count/length/size/decompressed-size/mask-block-count field set to 0, 1, true+-1, 0x7F.., 0x80.., max, every enum field an undeclared value, Bool>=2, flags all-ones, DateTime out of range and at its field boundaries (hour 24, month 12, the day after the month's last with each of the 7 weekdays), a well-formed zlib stream that inflates to 1.25 GiB, strings without NUL / invalid UTF-8 / 300 bytes, packed-guid and built-in mask patterns announcing more than remains, sentinel-less achievement arrays; slots beyond the enumerated faults and the sampled part draw compressed-payload corruption, lying headers, bit flips, random bodies and combinations. The faulty frame is placed after 0-2 intact messages and before one more, and is read through the opcode-enum reader, the typed expect helper (and read_initial_message for login) by the blocking (whole buffer and chunked with EINTR), tokio and async-std readers under a scheduled delivery, and (world) once more through the decrypting readers with the headers encrypted under the session key, as an authenticated hostile peer would send them. Every read must return Ok or Err; panics are caught with location, process deaths attributed by the supervisor, allocation observed by a counting allocator (budget 1 GiB per scenario). Non-trivial: the fault actually reached a reader (a mutated byte or the cut was delivered); distinct = distinct event-log hashes.", MIN_SLOTS)
     }
     fn assumptions(&self) -> Vec<String> {
         vec![
@@ -197,8 +257,8 @@ impl Check for C03 {
     }
     fn plan(&self, tier: Tier) -> (u64, u64) {
         match tier {
-            Tier::Quick => (self.quick_cases(env_u64("VERIF_SEED", 1)).len() as u64 * SLOTS, env_u64("VERIF_C03_RUNS", 60_000)),
-            Tier::Thorough => (self.cases.len() as u64 * SLOTS * 3, env_u64("VERIF_C03_RUNS", 4_000_000)),
+            Tier::Quick => (self.table(tier).total, env_u64("VERIF_C03_RUNS", 60_000)),
+            Tier::Thorough => (self.table(tier).total, env_u64("VERIF_C03_RUNS", 4_000_000)),
         }
     }
     fn gen(&self, i: u64, seed: u64, tier: Tier) -> Value {
@@ -208,32 +268,19 @@ impl Check for C03 {
         let mut fr = rng.fork("faults");
         let (n_enum, _) = self.plan(tier);
         let master = env_u64("VERIF_SEED", 1);
-        let (case, slot, shape_seed) = if i < n_enum {
-            let ci = i / SLOTS;
-            let slot = i % SLOTS;
-            match tier {
-                Tier::Quick => {
-                    let q = self.quick_cases(master);
-                    (self.cases[q[ci as usize % q.len()]].clone(), Some(slot), master)
-                }
-                Tier::Thorough => {
-                    let n = self.cases.len() as u64;
-                    (self.cases[(ci % n) as usize].clone(), Some(slot), master.wrapping_add(ci / n))
-                }
-            }
+        let (case, slot, shape) = if i < n_enum {
+            let t = self.table(tier);
+            let r = t.rows.partition_point(|row| row.2 + row.3 <= i);
+            let (ci, shape, first, _n) = t.rows[r];
+            (self.cases[ci].clone(), Some(i - first), shape)
         } else {
-            (cf.pick(&self.cases).clone(), None, seed)
+            // sampled part: a random case, a fresh frame per run
+            (cf.pick(&self.cases).clone(), None, 1 + (seed >> 8))
         };
-        // the frame of a case depends only on (master seed, case, shape number), not on the slot
-        let mut wl = Rng::new(crate::rng::run_seed(shape_seed, &case.label(), 0xC03));
-        let knobs = Knobs { allow_nan: true, ..Knobs::default() };
-        let Some(f) = encode_case(&self.ctx, &case, &mut wl, &knobs) else {
+        let Some((f, muts)) = self.frame_for(&case, shape, master) else {
             return json!({"label": case.label(), "case": case_json(&case), "skip": "unmodelled"});
         };
         let world = case.login.is_none();
-        let mut muts = compressed_mutations(&f);
-        muts.extend(field_mutations(&f));
-        muts.extend(truncations(&f, world));
         let (m, enumerated) = match slot {
             Some(s) if (s as usize) < muts.len() => (muts[s as usize].clone(), true),
             _ => (random_mutation(&f, &mut fr, world), false),
